@@ -383,7 +383,17 @@ impl Calibrations {
         previous_calibrations: &[Instruction],
         build_source_map: bool,
     ) -> Result<Option<CalibrationExpansionOutput>, ProgramError> {
+        #[cfg(rigetti_quil_rs_verif)]
+        crate::verif::emit(crate::verif::VerifEvent::CalExpandEnter {
+            instruction,
+            depth: previous_calibrations.len(),
+        });
         if previous_calibrations.contains(instruction) {
+            #[cfg(rigetti_quil_rs_verif)]
+            crate::verif::emit(crate::verif::VerifEvent::CalExpandRecursive {
+                instruction,
+                depth: previous_calibrations.len(),
+            });
             return Err(ProgramError::RecursiveCalibration(instruction.clone()));
         }
         let expansion_result = match instruction {
@@ -486,6 +496,13 @@ impl Calibrations {
             }
             _ => None,
         };
+
+        #[cfg(rigetti_quil_rs_verif)]
+        crate::verif::emit(crate::verif::VerifEvent::CalExpandMatched {
+            instruction,
+            depth: previous_calibrations.len(),
+            body_len: expansion_result.as_ref().map(|(body, _)| body.len()),
+        });
 
         // Add this instruction to the breadcrumb trail before recursion
         let mut calibration_path = Vec::with_capacity(previous_calibrations.len() + 1);
